@@ -11,7 +11,7 @@ from .base import Verdict, sig_of, tagged, crash_check
 
 ID = "C19"
 LEVEL = "exploration"
-RUNS = (1500, 40000)
+RUNS = (3000, 60000)
 RULE = ("one seeded two-layer tree under $ECONFTOOL_ROOT (/usr/etc, /etc; main files and drop-ins; contents with only group-less "
         "keys, only sections, or both; optionally one malformed member) or a single absolute file; --delimiters in {=, :, spaces, "
         "'= ', '\\t'-escape} and --comment in {#, ;}; the real tool is spawned for show, syntax and cat and compared with the "
